@@ -524,9 +524,15 @@ def run_job(build, pid, job, tier_caps, findings):
                 if not any(exp in p[1] for p in pr["props"]):
                     rec.update(status="broken", reason="expected assertion '%s' missing from result list" % exp)
                     return rec
-            if pr["unwind_fail"]:
+            other_fail = [f for f in pr["failed"] if f[0] not in pr["unwind_fail"]]
+            if pr["unwind_fail"] and (job.get("witness") or not other_fail):
                 rec.update(status="broken" if not job.get("unwind_is_undecided") else "undecided", reason="unwinding assertion failed (bound too small): %s" % pr["unwind_fail"][:4])
                 return rec
+            if pr["unwind_fail"]:
+                # a property fails on an execution that stays inside the bound: that counterexample is real (replayed below);
+                # the exceeded bound is reported with it
+                rec["unwind_exceeded"] = pr["unwind_fail"][:6]
+                pr["failed"] = other_fail
             if job.get("witness"):
                 wfail = [p for p in pr["failed"] if "WITNESS" in p[1]]
                 want = job.get("witness_expect")
